@@ -45,6 +45,9 @@ type Decoder struct {
 	dict     []byte
 	n        int
 	Dead     bool
+	// KeepGoingAfterClose: keep decoding after a Close frame (used by checks
+	// that leave "nothing follows a Close frame" to another property).
+	KeepGoingAfterClose bool
 	// Partial describes the message in progress (for prefix oracles).
 	MaxInflate int // cap on inflated size (0 = 64 MiB)
 }
@@ -127,7 +130,7 @@ func (d *Decoder) Feed(f Frame) []Event {
 		return []Event{{Kind: EvPong, Payload: f.Payload, Frame: d.n - 1}}
 	case OpClose:
 		if len(f.Payload) == 0 {
-			d.Dead = true
+			d.Dead = !d.KeepGoingAfterClose
 			return []Event{{Kind: EvClose, Code: 1005, Frame: d.n - 1}}
 		}
 		if len(f.Payload) == 1 {
@@ -137,7 +140,7 @@ func (d *Decoder) Feed(f Frame) []Event {
 		if !ValidWireCode(code) {
 			return d.viol(fmt.Sprintf("close-code-%d", code))
 		}
-		d.Dead = true
+		d.Dead = !d.KeepGoingAfterClose
 		return []Event{{Kind: EvClose, Code: code, Reason: string(f.Payload[2:]), Frame: d.n - 1}}
 	}
 	if f.Opcode != OpCont {
